@@ -175,6 +175,44 @@ def common_summaries():
             outs.append((s, mk_option(Ref(m.entries[i][1])) if i is not None else mk_option()))
         return outs
 
+    @reg(r'^HashMap::<.*>::contains_key(::<.*>)?$')
+    def hm_contains_key(ex, st, fn, argv):
+        m = deref(ex, st, argv[0])
+        if not isinstance(m, AssocMap):
+            return NotImplemented
+        k = deref(ex, st, argv[1])
+        return [(st, Bool(z3.Or(*[z3.And(e[2], key_eq(e[0], k)) for e in m.entries]) if m.entries else z3.BoolVal(False)))]
+
+    @reg(r'^HashMap::<.*>::insert$')
+    def hm_insert(ex, st, fn, argv):
+        m0 = deref(ex, st, argv[0])
+        if not isinstance(m0, AssocMap):
+            return NotImplemented
+        outs = []
+        for (s, c, i) in find_entry(ex, st, argv, 0, lambda ex, s, c: c[1]):
+            m = deref(ex, s, c[0])
+            if i is None:
+                m.add(c[1], c[2])
+                outs.append((s, mk_option()))
+            else:
+                old = m.entries[i][1].value
+                m.entries[i][1].value = c[2]
+                outs.append((s, mk_option(old)))
+        return outs
+
+    @reg(r'^HashMap::<.*>::clear$')
+    def hm_clear(ex, st, fn, argv):
+        m = deref(ex, st, argv[0])
+        if not isinstance(m, AssocMap):
+            return NotImplemented
+        for e in m.entries:
+            if z3.is_true(z3.simplify(e[2])):
+                ex.drop_fields(st, e[1].value)
+            elif not z3.is_false(z3.simplify(e[2])):
+                raise Unsupported('HashMap::clear with symbolic presence')
+            e[2] = z3.BoolVal(False)
+        return [(st, Unit())]
+
     @reg(r'^HashMap::<.*>::remove(::<.*>)?$')
     def hm_remove(ex, st, fn, argv):
         outs = []
@@ -774,6 +812,36 @@ def common_summaries():
             else:
                 outs.append((s, ('CALL', c[1], [] if is_opt else [payload0(ex, s, c[0], 1)], None)))
         return outs
+
+    @reg(r'^(std::option::)?Option::<.*>::map_or::<')
+    def o_map_or(ex, st, fn, argv):
+        """opt.map_or(default, f): default when None (the closure is dropped), f(x) when Some(x) (the default is dropped)"""
+        o = as_enum(ex, st, argv[0])
+        outs = []
+        for (s, c, some) in ex.fork_on(st, o.disc_bv() == 1, (o, argv[1], argv[2])):
+            o2, dflt, clo = c
+            if some:
+                ex.drop_fields(s, dflt)
+                outs.append((s, ('CALL', clo, [payload0(ex, s, o2, 1)], None)))
+            else:
+                outs.append((s, dflt))
+        return outs
+
+    @reg(r'^(std::ops::)?RangeInclusive::<(u8|u16|u32|u64|usize)>::new$')
+    def ri_new(ex, st, fn, argv):
+        return [(st, Agg({0: argv[0], 1: argv[1]}, 'RangeInclusive'))]
+
+    @reg(r'^(std::ops::)?RangeInclusive::<(u8|u16|u32|u64|usize)>::contains::<.*>$|^(std::ops::)?Range::<(u8|u16|u32|u64|usize)>::contains::<.*>$')
+    def r_contains(ex, st, fn, argv):
+        r = deref(ex, st, argv[0])
+        x = deref(ex, st, argv[1])
+        lo, hi = r.fields[0].bv, r.fields[1].bv
+        inc = 'RangeInclusive' in fn
+        return [(st, Bool(z3.And(z3.ULE(lo, x.bv), z3.ULE(x.bv, hi) if inc else z3.ULT(x.bv, hi))))]
+
+    @reg(r' as Iterator>::by_ref$')
+    def iter_by_ref(ex, st, fn, argv):
+        return [(st, argv[0])]
 
     @reg(r'^(std::option::)?Option::<.*>::ok_or_else::<')
     def o_ok_or_else(ex, st, fn, argv):
